@@ -44,6 +44,68 @@ pub fn first_diff(a: &str, b: &str) -> String {
     format!("first difference at char {}: …{:?} vs …{:?}", i, sa, sb)
 }
 
+/// Does this program still make implementation and model disagree? (None = the model does not
+/// specify it, or they agree.)
+fn disagree(p: &gen::Prog) -> Option<(String, String)> {
+    let m = gen::model_run(p, 20_000);
+    if let End::Unspec(_) = m.end {
+        return None;
+    }
+    let lines = gen::render(p);
+    let r = run_fresh(&lines, &["RUN".to_string()], &p.replies, 5000, 20_000);
+    if r.stop == Stop::Budget || r.transcript == m.out {
+        return None;
+    }
+    Some((r.transcript, m.out))
+}
+
+/// Greedy witness shrinking: replace a line by a bare REM (labels stay, so references still link), drop
+/// single statements of multi-statement lines; keep a step whenever the two still disagree.
+fn shrink(p: &gen::Prog, impl_out: &str, model_out: &str) -> (gen::Prog, String, String) {
+    let mut best = p.clone();
+    let mut outs = (impl_out.to_string(), model_out.to_string());
+    let mut budget = 400;
+    let mut progress = true;
+    while progress && budget > 0 {
+        progress = false;
+        for li in (0..best.lines.len()).rev() {
+            if budget == 0 {
+                break;
+            }
+            if matches!(best.lines[li].sts.first(), Some(gen::St::Rem(..))) && best.lines[li].sts.len() == 1 {
+                continue;
+            }
+            budget -= 1;
+            let mut q = best.clone();
+            q.lines[li].sts = vec![gen::St::Rem(String::new(), false)];
+            if let Some(o) = disagree(&q) {
+                best = q;
+                outs = o;
+                progress = true;
+                continue;
+            }
+            let n = best.lines[li].sts.len();
+            if n >= 2 {
+                for si in (0..n).rev() {
+                    if budget == 0 {
+                        break;
+                    }
+                    budget -= 1;
+                    let mut q = best.clone();
+                    q.lines[li].sts.remove(si);
+                    if let Some(o) = disagree(&q) {
+                        best = q;
+                        outs = o;
+                        progress = true;
+                        break;
+                    }
+                }
+            }
+        }
+    }
+    (best, outs.0, outs.1)
+}
+
 impl Prop for ModelProg {
     fn cases(&self, tier: Tier) -> u64 {
         match tier {
@@ -112,15 +174,23 @@ impl Prop for ModelProg {
             } else {
                 "transcript"
             };
+            // shrink: blank out lines / drop statements while the two still disagree
+            let (sp, sr, sm) = shrink(&p, &r.transcript, &m.out);
+            let stext = gen::render(&sp).join("\n");
             // name the last statement kind the model ran, for deduplication
             ctx.violation(
                 kind,
                 &format!("{}:{:?}", kind, m.end).chars().filter(|c| !c.is_ascii_digit()).collect::<String>(),
                 &format!(
-                    "implementation and reference interpreter disagree; {}\nimpl : {:?}\nmodel: {:?}",
+                    "implementation and reference interpreter disagree; {}\nimpl : {:?}\nmodel: {:?}\n--- shrunk witness ({} of {} lines with code) ---\n{}\nimpl : {:?}\nmodel: {:?}",
                     first_diff(&r.transcript, &m.out),
                     r.transcript,
-                    m.out
+                    m.out,
+                    sp.lines.iter().filter(|l| !matches!(l.sts.first(), Some(gen::St::Rem(..)) | None)).count(),
+                    p.lines.len(),
+                    stext,
+                    sr,
+                    sm
                 ),
                 &text,
             );
